@@ -584,6 +584,20 @@ def registration_task(task, ctx: Ctx):
                             urwid.emit_signal(obj, name, 7)
                             if calls != [(7,)]:
                                 ctx.violation("exactly-once", "C14/registration/emit", dict(case, name=name), f"emit after connect called the handler with {calls}")
+                    # defining the subclasses must not have changed what the base classes accept
+                    for bname, own in (("A", {"a"}), ("B", {"b"}), ("N", set())):
+                        bobj = pool[bname]()
+                        for name in ("a", "b", "c", "d"):
+                            try:
+                                urwid.connect_signal(bobj, name, lambda *a: None)
+                                ok = True
+                            except NameError:
+                                ok = False
+                            except Exception:  # noqa: BLE001
+                                continue
+                            if ok != (name in own):
+                                ctx.violation("registration", f"C14/registration/base-class-changed/{'accepts' if ok else 'rejects'}", dict(case, base=bname, name=name),
+                                              f"after a class with bases {names} (own signals {own1}) was defined, base class {bname} (declares {sorted(own)}) {'accepts' if ok else 'rejects'} {name!r}")
                     ctx.distinct("nontrivial", ("reg", names, tuple(own1 or ()), str(own2)))
 
 
